@@ -9,8 +9,13 @@
   Lemmas: `OVM/Registry/{RegistryProofs,OpProofs,WorldProofs,FrameProofs,CopyProofs}.lean`.
   The tie to the C++ is the differential run of `harness/prop_drv.cc` judged by
   `OVM/Registry/Driver.lean` (tools/registry_check.py).
+  Section 6: the digest line `topo := source.topo` of the model is justified from the table
+  `OVM/Gen/CopyFields.lean` that tools/t6_copyfields.py regenerates from the clang AST of the
+  current sources (data members, their types, special member functions of the kernel classes);
+  predicates and the member-wise copy semantics: `OVM/Registry/CopyFields.lean`.
 -/
 import OVM.Registry.CopyProofs
+import OVM.Registry.CopyFields
 namespace OVM.Props.C13
 open OVM.Registry
 
@@ -161,5 +166,122 @@ example : Untouched 2 demoW [.write 0 0 99, .addVertex 1 77 5, .setName 1 "t", .
 
 /-- self-assignment on a non-trivial state -/
 example : (step demoW (.assign 2 2)).toOption = some (demoW, .unit) := by decide
+
+/-! ## 6. Topology: `topo := source.topo` is member-wise copy of value members (regenerated table T6) -/
+
+open OVM.Registry.CopyFields in
+/-- read off the sources by T6: `TopologyKernel` and the tetrahedral / hexahedral kernels have
+    implicit or defaulted copy constructor and copy assignment, all their data members are of value
+    type (no pointer, reference, smart pointer, function object) and none is `mutable`; the derived
+    kernels add no data member at all (so the `TopologyKernel::operator=` call inside
+    `GeometryKernel::operator=` copies the whole kernel state also across kernel types); the single
+    inheritance chain is GeometryKernel → kernel → TopologyKernel → ResourceManager; the only
+    classes with user-provided copy operations are `ResourceManager` and `GeometryKernel`, whose
+    data members are exactly the ones the world model mirrors by hand (`persistent_props_`,
+    `storage_trackers_`, `position_`); and every data member of `TopologyKernel` is observed by the
+    digest the correspondence run compares (`digestCovers`) -/
+theorem topology_copy_is_memberwise :
+    (∀ n ∈ ["TopologyKernel", "TetrahedralMeshTopologyKernel", "HexahedralMeshTopologyKernel"],
+        (find n).map MemberwiseDeep = some true) ∧
+    ((find "TetrahedralMeshTopologyKernel").map fieldNames = some [] ∧
+     (find "HexahedralMeshTopologyKernel").map fieldNames = some []) ∧
+    ((OVM.Gen.CopyFields.classes.filter hasUserCopy).map (·.name) =
+      ["ResourceManager", "GeometryKernel<VecT, TopologyKernelT>", "GeometryKernel<Vec3d, TopologyKernel>",
+       "GeometryKernel<Vec3d, TetrahedralMeshTopologyKernel>", "GeometryKernel<Vec3d, HexahedralMeshTopologyKernel>"] ∧
+     (OVM.Gen.CopyFields.classes.filter (fun c => !hasUserCopy c)).all MemberwiseDeep = true) ∧
+    ((find "ResourceManager").map fieldNames = some ["persistent_props_", "storage_trackers_"] ∧
+     OVM.Gen.CopyFields.classes.all
+       (fun c => !hasUserCopy c || c.name == "ResourceManager" || fieldNames c == ["position_"]) = true) ∧
+    ((find "TopologyKernel").map fun c =>
+        (fieldNames c).all (fun n => digestCovers.any (·.1 == n)) &&
+        digestCovers.all (fun e => (fieldNames c).contains e.1 && e.2 != "")) = some true := by
+  refine ⟨?_, derived_kernels_add_no_state, user_provided_copy_classes, hand_mirrored_state, digest_covers_every_field⟩
+  intro n hn
+  simp only [List.mem_cons, List.not_mem_nil, or_false] at hn
+  rcases hn with rfl | rfl | rfl
+  · exact topologyKernel_copy_is_memberwise_deep
+  · exact tetKernel_copy_is_memberwise_deep
+  · exact hexKernel_copy_is_memberwise_deep
+
+open OVM.Registry.CopyFields in
+/-- what that gives, for the `TopologyKernel` row `tk` of the regenerated table and ANY kernel
+    object state `src` typed by it: the member-wise copy (over whatever `dst` held) agrees with the
+    source on every data member, shares no storage with it, and every observer that reads kernel
+    members only -- the digest, any public query -- returns the same on copy and source -/
+theorem topology_copy_preserves_every_observer :
+    ∃ tk, find "TopologyKernel" = some tk ∧ tk.fields ≠ [] ∧
+      ∀ (src dst : Obj), Typed tk src →
+        (∀ f ∈ tk.fields, memberwise tk src dst f.name = src f.name) ∧
+        ¬ Aliases tk (memberwise tk src dst) src ∧
+        (∀ {α : Type} (obs : Obj → α), (∀ a b : Obj, (∀ f ∈ tk.fields, a f.name = b f.name) → obs a = obs b) →
+          obs (memberwise tk src dst) = obs src) := by
+  have h := topologyKernel_copy_is_memberwise_deep
+  cases hf : find "TopologyKernel" with
+  | none => rw [hf] at h; cases h
+  | some tk =>
+    rw [hf] at h
+    simp only [Option.map_some, Option.some.injEq] at h
+    refine ⟨tk, rfl, ?_, fun src dst ht => memberwise_deep_sound h ht dst⟩
+    intro he
+    have hd := digest_covers_every_field
+    rw [hf] at hd
+    simp only [Option.map_some, Option.some.injEq, fieldNames, he, List.map_nil, List.all_nil, Bool.true_and] at hd
+    revert hd
+    decide
+
+open OVM.Registry.CopyFields in
+/-- `copy_is_deep` / `assign_is_deep` together with the table: the topology digest the model gives
+    the target (`d.topo`) is the digest of the MEMBER-WISE COPY of the source's kernel object, for
+    every digest function that reads kernel members only and every typed kernel object `ks` whose
+    digest the source carries; and that copy shares no storage with the source -/
+theorem copy_assign_topology_is_memberwise_copy {w w' : World} {a b : Nat} {sm : Mesh} {r : Res} (hi : Inv w)
+    (hne : a ≠ b) (hsm : getM w a = some sm)
+    (e : step w (.copy a b) = .ok (w', r) ∨ ((getM w b).isSome = true ∧ step w (.assign b a) = .ok (w', r))) :
+    ∃ d tk, getM w' b = some d ∧ d.cnt = sm.cnt ∧ find "TopologyKernel" = some tk ∧
+      ∀ (digest : Obj → Nat), (∀ x y : Obj, (∀ f ∈ tk.fields, x f.name = y f.name) → digest x = digest y) →
+        ∀ (ks old : Obj), Typed tk ks → sm.topo = digest ks →
+          d.topo = digest (memberwise tk ks old) ∧ ¬ Aliases tk (memberwise tk ks old) ks := by
+  obtain ⟨tk, htk, _, hall⟩ := topology_copy_preserves_every_observer
+  have key : ∀ d : Mesh, d.topo = sm.topo →
+      ∀ (digest : Obj → Nat), (∀ x y : Obj, (∀ f ∈ tk.fields, x f.name = y f.name) → digest x = digest y) →
+        ∀ (ks old : Obj), Typed tk ks → sm.topo = digest ks →
+          d.topo = digest (memberwise tk ks old) ∧ ¬ Aliases tk (memberwise tk ks old) ks := by
+    intro d hd digest hloc ks old ht hs
+    obtain ⟨_, hna, hobs⟩ := hall ks old ht
+    exact ⟨by rw [hd, hs, hobs digest hloc], hna⟩
+  rcases e with e | ⟨hb, e⟩
+  · obtain ⟨X, d, p, cs⟩ := copy_spec hi hsm e
+    exact ⟨d, tk, cs.mesh, cs.cnt, htk, key d cs.topo⟩
+  · cases hdm : getM w b with
+    | none => rw [hdm] at hb; cases hb
+    | some dm =>
+      obtain ⟨X, d, p, as⟩ := assign_spec hi (Ne.symm hne) hsm hdm e
+      exact ⟨d, tk, as.mesh, as.cnt, htk, key d as.topo⟩
+
+open OVM.Registry.CopyFields OVM.Gen.CopyFields in
+/-- non-vacuity: a typed kernel object exists; the predicate is not trivially true (it is false for
+    `ResourceManager`, whose members hold `shared_ptr`s / raw pointers and whose copy operations
+    are user-provided); a row with one `std::shared_ptr` member fails it, and its member-wise copy
+    does alias the source -/
+example :
+    (∃ tk, find "TopologyKernel" = some tk ∧ Typed tk (fun _ => .val 0) ∧ tk.fields.length = 20) ∧
+    (find "ResourceManager").map MemberwiseDeep = some false ∧
+    (let bad : ClassInfo := { name := "K", file := "", bases := [], copyCtor := .defaulted, copyAssign := .defaulted,
+                              moveCtor := .absent, moveAssign := .absent, dtor := .implicit,
+                              fields := [{ name := "cache_", ty := "std::shared_ptr<std::vector<int>>", written := "",
+                                           cls := .pointer, isMutable := false }] }
+     MemberwiseDeep bad = false ∧ Aliases bad (memberwise bad (fun _ => .ref 7) (fun _ => .val 0)) (fun _ => .ref 7)) := by
+  refine ⟨?_, by decide, by decide, ?_⟩
+  · cases hf : find "TopologyKernel" with
+    | none => exact absurd hf (by decide)
+    | some tk =>
+      refine ⟨tk, rfl, fun f _ _ => ⟨0, rfl⟩, ?_⟩
+      have : (find "TopologyKernel").map (·.fields.length) = some 20 := by decide
+      rw [hf] at this
+      simpa using this
+  · exact ⟨_, List.mem_singleton.mpr rfl, _, List.mem_singleton.mpr rfl, 7, by decide, rfl⟩
+
+/-- non-vacuity of the combined statement on the demo world: mesh 1 is a copy of mesh 0 -/
+example : (getM demoW 1).map (·.topo) = (getM demoW 0).map (·.topo) := by decide
 
 end OVM.Props.C13
